@@ -289,6 +289,11 @@ func newC06Store(cfg c06cfg, tmp string, closers *[]func()) (corestore.KVStoreWi
 		return dbm.NewMemDB(), nil
 	case "memdb-delay":
 		return &delayStore{KVStoreWithBatch: dbm.NewMemDB()}, nil
+	case "prefix-memdb":
+		// a store-key style prefix held in a slice with spare capacity, over a delaying MemDB: the
+		// way an application mounts one tree among several in one database
+		prefix := append(make([]byte, 0, 64), []byte("s/k:distribution/")...)
+		return dbm.NewPrefixDB(&delayStore{KVStoreWithBatch: dbm.NewMemDB()}, prefix), nil
 	case "goleveldb":
 		dir, err := os.MkdirTemp(tmp, "c06ldb")
 		if err != nil {
@@ -1150,6 +1155,8 @@ func c06Config(i int, tier string) (kind string, cfg c06cfg, point string) {
 		// tiny caches under background pruning: entries are evicted (and their keys read) all the time
 		{cache: 3, fast: true, async: true, backend: "memdb"},
 		{cache: 8, fast: false, async: true, backend: "memdb-delay"},
+		{cache: 0, fast: true, backend: "prefix-memdb"},
+		{cache: 100, fast: false, async: true, backend: "prefix-memdb"},
 	}
 	reps := 4
 	if tier == "thorough" {
@@ -1162,7 +1169,7 @@ func c06Config(i int, tier string) (kind string, cfg c06cfg, point string) {
 		cfg.readers = []int{2, 8, 16}[(i/len(matrix))%3]
 		cfg.rounds = 60
 		cfg.keys = []int{6, 24}[(i/len(matrix))%2]
-		cfg.prepopulate = (i/len(matrix))%2 == 1 || cfg.backend == "memdb-delay"
+		cfg.prepopulate = (i/len(matrix))%2 == 1 || cfg.backend == "memdb-delay" || cfg.backend == "prefix-memdb"
 		if tier == "thorough" {
 			cfg.rounds = 150
 		}
@@ -1276,10 +1283,10 @@ func init() {
 			if tier == "thorough" {
 				reps = 100
 			}
-			return 10*reps + len(c06Points)*4 + 8 + 8 + 1
+			return 12*reps + len(c06Points)*4 + 8 + 8 + 1
 		},
 		CaseTimeout: 240e9,
-		Rule: "built with the Go race detector. Case kinds: (stress) 10 configurations {node cache 0/3/8/100/10000} x {fast index on/off} x {sync pruning, background pruning with the SetCommitting/UnsetCommitting protocol} x {MemDB, MemDB with unsynchronised yields around storage calls, GoLevelDB} x readers in {2,8,16}, repeated 4x (quick) / 100x (thorough): one writer (Set/Remove/SaveVersion/DeleteVersionsTo of versions nobody reads) and N readers that obtain committed versions with GetImmutable and run Get, GetWithIndex, Has, Iterator, IterateRange, GetProof (verified against the commit hash), Export, Hash, GetByIndex - every result compared with the snapshot published at commit; 2 scout goroutines open arbitrary version numbers and the commit/prune/open history is checked with porcupine against the per-version model uncommitted->committed->deleted; background pruning must reach its target within a bound after the writer stops (otherwise inconclusive). " +
+		Rule: "built with the Go race detector. Case kinds: (stress) 12 configurations {node cache 0/3/8/100/10000} x {fast index on/off} x {sync pruning, background pruning with the SetCommitting/UnsetCommitting protocol} x {MemDB, MemDB with unsynchronised yields around storage calls, GoLevelDB, PrefixDB (prefix slice with spare capacity) over a yielding MemDB} x readers in {2,8,16}, repeated 4x (quick) / 100x (thorough): one writer (Set/Remove/SaveVersion/DeleteVersionsTo of versions nobody reads) and N readers that obtain committed versions with GetImmutable and run Get, GetWithIndex, Has, Iterator, IterateRange, GetProof (verified against the commit hash), Export, Hash, GetByIndex - every result compared with the snapshot published at commit; 2 scout goroutines open arbitrary version numbers and the commit/prune/open history is checked with porcupine against the per-version model uncommitted->committed->deleted; background pruning must reach its target within a bound after the writer stops (otherwise inconclusive). " +
 			"In the stress cases the verif yield points inside pruning and cloning only delay (Gosched + 30us, no synchronisation, hence no happens-before edge) to widen the windows between protocol steps. (hook) oracle mode: the writer is parked at a verif yield point (in SaveVersion when everything is queued and nothing written; in SaveVersion after the batch commit, before SaveVersion returns; between per-version steps of DeleteVersionsTo; between the committing check and the lock in pruning; in Node.clone) and every reader operation type runs on every published version while it is parked - hook points x reader operations is enumerated. (pause) a reader of the latest version is parked INSIDE its storage read (fast-index entry or node, via a pausing storage wrapper on a freshly opened handle with cold caches) while the writer commits a change of the same key; the reader must return its version's value and afterwards every version must read exactly; every third round uses the \"between\" schedule on a freshly opened handle instead: writer changes k (uncommitted), a reader goroutine reads k in the latest committed version, writer commits, every version must read exactly. (pin) a version with an open Exporter (plus a second, double-closed export of it; half of the cases open the export while the version is still the latest one and commit two more versions) cannot be deleted from another goroutine, its stream is R's complete post-order stream, and the deletion succeeds after Close. " +
 			"(canary) one case commits a deliberate unsynchronised write pair inside the harness; its report must appear in the collected logs, otherwise the run is inconclusive. All race-detector reports of all workers are collected from the race logs, deduplicated by the pair of first iavl frames and reported if both accesses are in iavl. distinct = hash(kind, configuration, repetition); non-trivial = >=20 commits overlapped by >=100 reader operations, or a parked overlap, or a pin check.",
 		Assumptions: []string{"only schedules that happened are judged; race reports are schedule dependent", "the harness' registry (which versions are published / in use) is the monitor's own mutex-guarded state", "readers only read versions the writer has not asked to delete (as the property states)"},
